@@ -83,6 +83,25 @@ class Indexed(gens.HarnessGenerator):
         return np.asarray(v, dtype=dtype) if np.ndim(v) else v
 
 
+def signed_permutation(L, Lmodel):
+    """is every non-zero column of L plus or minus a column of Lmodel, each used at most once?"""
+    if L.shape != Lmodel.shape:
+        return False
+    sc = max(np.abs(Lmodel).max(), 1e-300)
+    G = L.T.dot(Lmodel)                               # G[k, m] = <code column k, model column m>
+    used = set()
+    for k in range(L.shape[1]):
+        if np.abs(L[:, k]).max() <= 1e-12 * sc:
+            continue
+        for m in np.argsort(-np.abs(G[k]))[:4]:
+            if int(m) not in used and (np.allclose(L[:, k], Lmodel[:, m], rtol=0, atol=1e-9 * sc) or np.allclose(L[:, k], -Lmodel[:, m], rtol=0, atol=1e-9 * sc)):
+                used.add(int(m))
+                break
+        else:
+            return False
+    return True
+
+
 def measured_map(func, N, P, rng):
     """the code's own linear map L (pixels x deviates), column by column; None, why  when it cannot be measured this way.
     Also decides linearity: a random deviate vector must give L x."""
@@ -279,19 +298,31 @@ def check_size(ps, c, rng, quick):
                 bad.append(("%s:non-zero-spatial-mean" % name, dict(N=N, params=P)))
             if L.shape != Lmodel.shape or not np.allclose(L, Lmodel, rtol=0, atol=1e-10 * max(np.abs(Lmodel).max(), 1e-300)):
                 notes.append("%s N=%d: deviates feed the coefficients in another order than transcribed (covariance identical)" % (name, N))
+                if name == "ft_phase_screen" and not signed_permutation(L, Lmodel):
+                    notes.append("LATTICE: %s N=%d: a deviate does not feed exactly one coefficient of the full frequency lattice (Hermitian half-plane, mixed deviates ...): "
+                                 "the single-column probes of large grids do not apply" % (name, N))
                 if not np.allclose(L.sum(1), Lmodel.sum(1), rtol=0, atol=1e-9 * max(np.abs(Lmodel).max(), 1e-300) * np.sqrt(L.shape[1])):
                     notes.append("SUMRULE: %s N=%d: deviates enter with other signs / mixed: the equal-deviates probe of large grids does not apply" % (name, N))
-    # ---- a user-supplied inverse FFT (the FFT= parameter) must give the same screen as the default path (even N)
-    if N >= 2:
-        for fftobj in (np.fft.ifft2, lambda a: np.fft.ifft2(a)):
-            for P in PARAMS[:2]:
-                r0, delta, L0, l0 = P
-                a0 = np.asarray(ps.ft_phase_screen(r0, N, delta, L0, l0, seed=11))
-                a1 = np.asarray(ps.ft_phase_screen(r0, N, delta, L0, l0, FFT=fftobj, seed=11))
-                b0 = np.asarray(ps.ft_sh_phase_screen(r0, N, delta, L0, l0, seed=11))
-                b1 = np.asarray(ps.ft_sh_phase_screen(r0, N, delta, L0, l0, FFT=fftobj, seed=11))
-                if not np.allclose(a1, a0, rtol=0, atol=1e-11 * np.abs(a0).max()) or not np.allclose(b1, b0, rtol=0, atol=1e-11 * np.abs(b0).max()):
-                    bad.append(("ft_phase_screen:FFT-argument-changes-the-screen", dict(N=N, params=P)))
+    # ---- a user-supplied inverse FFT engine (the FFT= parameter): the statement's covariance holds for that path too.  (Not:
+    #      "the same screen as the default path for a seed" - the two paths may use their deviates differently.)
+    if 2 <= N <= 12:
+        for P in PARAMS[:2]:
+            Lhi, Llo = model_maps(c, P)
+            for func, want, name in ((lambda *a_, **k_: ps.ft_phase_screen(*a_, FFT=np.fft.ifft2, **k_), Lhi.dot(Lhi.T), "ft_phase_screen"),
+                                     (lambda *a_, **k_: ps.ft_sh_phase_screen(*a_, FFT=(lambda arr: np.fft.ifft2(arr)), **k_),
+                                      Lhi.dot(Lhi.T) + Llo.dot(Llo.T), "ft_sh_phase_screen")):
+                func.__name__ = name
+                L, why = measured_map(func, N, P, rng)
+                if L is None:
+                    if isinstance(why, tuple):
+                        bad.append((why[0] + ":with-FFT-argument", why[1]))
+                    continue
+                ncmp += L.shape[1]
+                C = L.dot(L.T)
+                if np.abs(C - want).max() > 1e-9 * max(np.abs(want).max(), 1e-300):
+                    i, j = np.unravel_index(int(np.argmax(np.abs(C - want))), C.shape)
+                    bad.append(("%s:FFT-argument-changes-the-screen" % name, dict(N=N, params=P, pixels=[int(i), int(j)], got=float(C[i, j]), expected=float(want[i, j]),
+                                                                                note="ensemble covariance with a user-supplied FFT engine")))
                     break
     # ---- r0 scaling for fixed draws, interleaved calls on the same geometry
     for seed in (0, 3):
@@ -585,14 +616,16 @@ def run(run):
     modes = {}
     ncov = unmeasured = 0
     sumrule_off = []
+    lattice_off = []
     for c in sorted(r.printed, key=lambda d: d["N"]):
         with np.errstate(all="ignore"):
             try:
                 bad, ncmp, notes = check_size(ps, c, rng, quick)
             except ProtocolChanged as ex:
                 bad, ncmp, notes = [], 0, [str(ex)[:200]]
-            sumrule_off += [nt for nt in notes if nt.startswith("SUMRULE")]
-            for nt in [nt for nt in notes if not nt.startswith("SUMRULE")][:2]:
+            sumrule_off += [nt for nt in notes if nt.startswith(("SUMRULE", "LATTICE"))]
+            lattice_off += [nt for nt in notes if nt.startswith("LATTICE")]
+            for nt in [nt for nt in notes if not nt.startswith(("SUMRULE", "LATTICE"))][:2]:
                 run.drift("draw-protocol-differs-from-transcription", dict(N=c["N"], why=nt))
             if c["N"] <= (8 if quick else 12):
                 for P in PARAMS:
@@ -634,7 +667,7 @@ def run(run):
         run.violation(key, detail, dict(kind="constant"))
     total += nk
     with np.errstate(all="ignore"):
-        badb, nbig, note = check_big_sizes(ps, r.printed, (320,) if quick else (320, 384, 300))
+        badb, nbig, note = ([], 0, lattice_off[0][:200]) if lattice_off else check_big_sizes(ps, r.printed, (320,) if quick else (320, 384, 300))
     for key, detail in badb:
         run.violation(key, detail, dict(kind="big"))
     if note:
